@@ -15,6 +15,11 @@ var blockSizes = []int{64, 200, 400, 1000, 4000}
 // are unique within the script, 1-4 Syncs, with probability closePct a Close in the middle (the next
 // write reopens the file), a final Close.
 func GenScript(rng *common.Rng, idx int, minW, maxW int, closePct int) Script {
+	return GenScriptB(rng, idx, minW, maxW, closePct, 12, 5)
+}
+
+// GenScriptB: batchPct percent of the write calls are batches of 2..maxBatch treasures.
+func GenScriptB(rng *common.Rng, idx int, minW, maxW int, closePct, batchPct, maxBatch int) Script {
 	s := Script{MBS: blockSizes[rng.Intn(len(blockSizes))]}
 	if rng.Intn(3) != 0 {
 		s.Name = fmt.Sprintf("verif/c02/s%d", idx)
@@ -29,11 +34,11 @@ func GenScript(rng *common.Rng, idx int, minW, maxW int, closePct int) Script {
 	val := int64(0)
 	for i := 0; i < nW; i++ {
 		val++
-		if rng.Chance(30) {
-			// one chronicler.Write call with 2-10 treasures (what the swamp's writer tick hands
+		if rng.Chance(batchPct) {
+			// one chronicler.Write call with 2..maxBatch treasures (what the swamp's writer tick hands
 			// over): duplicate keys and deletes of keys written in the same batch included; with
 			// the small block sizes the batch spans several block boundaries
-			n := 2 + rng.Intn(9)
+			n := 2 + rng.Intn(maxBatch-1)
 			st := Step{K: KBatch, FaultJ: -1}
 			for m := 0; m < n; m++ {
 				st.Items = append(st.Items, Item{Key: rng.Intn(8), Val: val, Del: rng.Chance(20)})
